@@ -1,11 +1,917 @@
-// Package signerstream: stub, replaced by the component's correspondence stream.
+// Package signerstream: C20 correspondence and double-sign monitor.
+//
+// Random sequences of vote / proposal signing requests (increasing, repeated, regressing and
+// conflicting height/round/step, same content with another timestamp, other block ids, POL rounds
+// and chain ids), reloads through crypto.LoadSFilePV and crashes before / after the state-file
+// write are run on the REAL crypto.SFilePV with its key and state files in the scratch directory,
+// on the Lean model (rigodriver signer) and through an independent double-sign detector written
+// from the property statement.
+//
+// Crash emulation (there is no hook inside saveSigned):
+//   - crashAfterSave  : the request runs to completion on the real signer, its result (signature
+//     included) is thrown away unseen, the in-memory object is dropped and the signer is reloaded
+//     from its files;
+//   - crashBeforeSave : as above, but the state file is put back to its bytes from before the
+//     request (the atomic rename never happened) before reloading.
 package signerstream
 
-import "verifharness/internal/common"
+import (
+	"bytes"
+	"encoding/hex"
+	"encoding/json"
+	"fmt"
+	"os"
+	"path/filepath"
+	"strconv"
+	"strings"
+	"time"
 
-// Run is the stream entry point (seed, tier quick|thorough, scratch dir, rigodriver path, optional replay lines).
+	rcrypto "github.com/rigochain/rigo-go/types/crypto"
+	tmcrypto "github.com/tendermint/tendermint/crypto"
+	tmproto "github.com/tendermint/tendermint/proto/tendermint/types"
+	tmtypes "github.com/tendermint/tendermint/types"
+
+	"verifharness/internal/common"
+	"verifharness/internal/rng"
+)
+
+// ---------------------------------------------------------------------------- messages
+
+var baseTime = time.Unix(1700000000, 0).UTC()
+
+func tsToTime(ts uint64) time.Time { return baseTime.Add(time.Duration(ts) * time.Millisecond) }
+func timeToTs(t time.Time) string {
+	d := t.Sub(baseTime)
+	if d < 0 || d%time.Millisecond != 0 {
+		return "odd:" + t.UTC().Format(time.RFC3339Nano)
+	}
+	return strconv.FormatInt(int64(d/time.Millisecond), 10)
+}
+
+func fill(b byte) []byte { return bytes.Repeat([]byte{b}, 32) }
+
+// content id -> everything in the canonical message that is not type/height/round/timestamp.
+// All ids give pairwise different canonical messages (for votes and for proposals).
+func contentOf(c uint64) (chain string, bid tmproto.BlockID, pol int32) {
+	chain, pol = "rigo-verif", -1
+	switch c % 6 {
+	case 0: // nil block
+	case 1:
+		bid = tmproto.BlockID{Hash: fill(0xA1), PartSetHeader: tmproto.PartSetHeader{Total: 1, Hash: fill(0xB1)}}
+	case 2:
+		bid = tmproto.BlockID{Hash: fill(0xA2), PartSetHeader: tmproto.PartSetHeader{Total: 1, Hash: fill(0xB2)}}
+	case 3: // differs from 1 only in the part-set total
+		bid = tmproto.BlockID{Hash: fill(0xA1), PartSetHeader: tmproto.PartSetHeader{Total: 2, Hash: fill(0xB1)}}
+	case 4: // differs from 1 only in the chain id
+		chain = "rigo-other"
+		bid = tmproto.BlockID{Hash: fill(0xA1), PartSetHeader: tmproto.PartSetHeader{Total: 1, Hash: fill(0xB1)}}
+	case 5: // differs from 1 only in the part-set hash
+		bid = tmproto.BlockID{Hash: fill(0xA1), PartSetHeader: tmproto.PartSetHeader{Total: 1, Hash: fill(0xB5)}}
+	}
+	// ids >= 6: same block data, other chain-id suffix (keeps the map injective for any id)
+	if c >= 6 {
+		chain = fmt.Sprintf("%s-%d", chain, c/6)
+	}
+	return
+}
+
+type request struct {
+	proposal bool
+	h        int64
+	r        int32
+	vtype    string // prevote|precommit|unknown
+	c, ts    uint64
+}
+
+func parseRequest(ws []string) (*request, bool) {
+	rq := &request{}
+	var hs, rs, cs, tss string
+	switch {
+	case len(ws) == 6 && ws[0] == "vote":
+		hs, rs, rq.vtype, cs, tss = ws[1], ws[2], ws[3], ws[4], ws[5]
+		if rq.vtype != "prevote" && rq.vtype != "precommit" && rq.vtype != "unknown" {
+			return nil, false
+		}
+	case len(ws) == 5 && ws[0] == "proposal":
+		rq.proposal = true
+		hs, rs, cs, tss = ws[1], ws[2], ws[3], ws[4]
+	default:
+		return nil, false
+	}
+	h, e1 := strconv.ParseInt(hs, 10, 64)
+	r, e2 := strconv.ParseInt(rs, 10, 32)
+	c, e3 := strconv.ParseUint(cs, 10, 32)
+	ts, e4 := strconv.ParseUint(tss, 10, 40)
+	if e1 != nil || e2 != nil || e3 != nil || e4 != nil {
+		return nil, false
+	}
+	rq.h, rq.r, rq.c, rq.ts = h, int32(r), c, ts
+	return rq, true
+}
+
+func (rq *request) step() int8 {
+	if rq.proposal {
+		return 1
+	}
+	if rq.vtype == "prevote" {
+		return 2
+	}
+	return 3
+}
+
+// vote / proposal with the given timestamp id
+func (rq *request) vote(ts uint64) (string, *tmproto.Vote) {
+	chain, bid, _ := contentOf(rq.c)
+	t := tmproto.UnknownType
+	switch rq.vtype {
+	case "prevote":
+		t = tmproto.PrevoteType
+	case "precommit":
+		t = tmproto.PrecommitType
+	}
+	return chain, &tmproto.Vote{Type: t, Height: rq.h, Round: rq.r, BlockID: bid, Timestamp: tsToTime(ts),
+		ValidatorAddress: fill(0x11)[:20], ValidatorIndex: 3}
+}
+
+func (rq *request) prop(ts uint64) (string, *tmproto.Proposal) {
+	chain, bid, pol := contentOf(rq.c)
+	if rq.c%6 == 5 { // for proposals content 5 additionally moves the POL round
+		pol = 0
+	}
+	return chain, &tmproto.Proposal{Type: tmproto.ProposalType, Height: rq.h, Round: rq.r, PolRound: pol,
+		BlockID: bid, Timestamp: tsToTime(ts)}
+}
+
+// canonical sign bytes of the request with timestamp id ts ("" if the vote type is unknown:
+// the real code panics before computing any)
+func (rq *request) signBytes(ts uint64) []byte {
+	if rq.proposal {
+		chain, p := rq.prop(ts)
+		return tmtypes.ProposalSignBytes(chain, p)
+	}
+	if rq.vtype == "unknown" {
+		return nil
+	}
+	chain, v := rq.vote(ts)
+	return tmtypes.VoteSignBytes(chain, v)
+}
+
+// ---------------------------------------------------------------------------- real signer
+
+type env struct {
+	dir     string
+	keyPath string
+	pass    []byte
+	priv    tmcrypto.PrivKey
+	pub     tmcrypto.PubKey
+}
+
+// one key per stream run (and per passphrase mode)
+func newEnv(dir, name string, pass []byte) (e *env, err error) {
+	defer func() {
+		if x := recover(); x != nil {
+			err = fmt.Errorf("key generation: %v", x)
+		}
+	}()
+	e = &env{dir: dir, keyPath: filepath.Join(dir, name+"-key.json"), pass: pass}
+	pv := rcrypto.GenSFilePV(e.keyPath, filepath.Join(dir, name+"-state-init.json"))
+	pv.SaveWith(pass)
+	e.priv = pv.Key.PrivKey
+	e.pub = pv.Key.PubKey
+	return e, nil
+}
+
+type fileState struct {
+	Height    string `json:"height"`
+	Round     int32  `json:"round"`
+	Step      int8   `json:"step"`
+	Signature []byte `json:"signature"`
+	SignBytes string `json:"signbytes"`
+}
+
+// the durable record, read straight from the state file (not through LoadSFilePV)
+func readStateFile(path string) (h int64, r int32, s int8, sb, sig []byte, err error) {
+	bz, err := os.ReadFile(path)
+	if err != nil {
+		return
+	}
+	var fs fileState
+	if err = json.Unmarshal(bz, &fs); err != nil {
+		return
+	}
+	h, err = strconv.ParseInt(fs.Height, 10, 64)
+	if err != nil {
+		return
+	}
+	sb, err = hex.DecodeString(fs.SignBytes)
+	return h, fs.Round, fs.Step, sb, fs.Signature, err
+}
+
+func flags(sb, sig []byte) string {
+	f := ""
+	if len(sb) > 0 {
+		f += "b"
+	} else {
+		f += "-"
+	}
+	if len(sig) > 0 {
+		f += "s"
+	} else {
+		f += "-"
+	}
+	return f
+}
+
+type reqRec struct {
+	idx int
+	sb  []byte
+}
+
+// what one operation released to the caller (input of the monitor)
+type release struct {
+	idx      int
+	sig      []byte
+	validFor []byte // sign bytes the signature verifies against (nil: none found)
+	hrs      [3]int64
+	modTs    string // validFor with the timestamp normalised ("same message up to timestamp")
+	fileHRS  [3]int64
+	fileSig  []byte
+	fileErr  string
+	injected bool // line was an `inject` (monitor forgets: hand-made file is outside the property)
+}
+
+type real struct {
+	e         *env
+	statePath string
+	pv        *rcrypto.SFilePV
+	n         int
+	reqs      []reqRec
+	// sign bytes -> (hrs, modTs) for everything requested in this history
+	meta map[string]sbMeta
+}
+
+type sbMeta struct {
+	hrs   [3]int64
+	modTs string
+}
+
+func openReal(e *env, idx int) (r *real, err error) {
+	defer func() {
+		if x := recover(); x != nil {
+			err = fmt.Errorf("open: %v", x)
+		}
+	}()
+	sp := filepath.Join(e.dir, fmt.Sprintf("state-%d.json", idx))
+	pv := rcrypto.NewSFilePV(e.priv, e.keyPath, sp)
+	pv.LastSignState.Save() // the initial state file, as GenSFilePV + SaveWith writes it
+	r = &real{e: e, statePath: sp, meta: map[string]sbMeta{}}
+	r.pv = rcrypto.LoadSFilePV(e.keyPath, sp, e.pass)
+	return r, nil
+}
+
+func (r *real) close() { _ = os.Remove(r.statePath) }
+
+func (r *real) reload() { r.pv = nil; r.pv = rcrypto.LoadSFilePV(r.e.keyPath, r.statePath, r.e.pass) }
+
+func (r *real) stateSuffix() string {
+	l := r.pv.LastSignState
+	mem := fmt.Sprintf("%d/%d/%d:%s", l.Height, l.Round, l.Step, flags(l.SignBytes, l.Signature))
+	h, rr, s, sb, sig, err := readStateFile(r.statePath)
+	disk := fmt.Sprintf("%d/%d/%d:%s", h, rr, s, flags(sb, sig))
+	if err != nil {
+		disk = "unreadable:" + err.Error()
+	}
+	return " mem=" + mem + " disk=" + disk
+}
+
+func classifyErr(msg string) string {
+	switch {
+	case strings.Contains(msg, "height regression"):
+		return "height-regression"
+	case strings.Contains(msg, "round regression"):
+		return "round-regression"
+	case strings.Contains(msg, "step regression"):
+		return "step-regression"
+	case strings.Contains(msg, "no SignBytes found"):
+		return "no-signbytes"
+	case strings.Contains(msg, "conflicting data"):
+		return "conflict"
+	}
+	return "other:" + msg
+}
+
+func classifyPanic(msg string) string {
+	switch {
+	case strings.Contains(msg, "Unknown vote type"):
+		return "unknown-vote-type"
+	case strings.Contains(msg, "Signature is nil but SignBytes is not"):
+		return "signature-nil"
+	}
+	return "other:" + msg
+}
+
+type callResult struct {
+	kind  string // fresh|same|ts-same|err <k>|panic <k>
+	sig   []byte
+	after []byte // sign bytes of the message as handed back (timestamp possibly replaced)
+	retTs string
+}
+
+// call SignVote / SignProposal on the real signer
+func (r *real) call(rq *request) (cr callResult) {
+	before, _ := os.ReadFile(r.statePath)
+	defer func() {
+		if x := recover(); x != nil {
+			cr = callResult{kind: "panic " + classifyPanic(fmt.Sprint(x))}
+		}
+	}()
+	var err error
+	var sig, after []byte
+	var ret time.Time
+	if rq.proposal {
+		chain, p := rq.prop(rq.ts)
+		err = r.pv.SignProposal(chain, p)
+		if err == nil {
+			sig, ret = p.Signature, p.Timestamp
+			after = tmtypes.ProposalSignBytes(chain, p)
+		}
+	} else {
+		chain, v := rq.vote(rq.ts)
+		err = r.pv.SignVote(chain, v)
+		if err == nil {
+			sig, ret = v.Signature, v.Timestamp
+			after = tmtypes.VoteSignBytes(chain, v)
+		}
+	}
+	if err != nil {
+		return callResult{kind: "err " + classifyErr(err.Error())}
+	}
+	now, _ := os.ReadFile(r.statePath)
+	cr = callResult{sig: sig, after: after, retTs: timeToTs(ret)}
+	switch {
+	case !bytes.Equal(before, now):
+		cr.kind = "fresh"
+	case !ret.Equal(tsToTime(rq.ts)):
+		cr.kind = "ts-same ts=" + cr.retTs
+	default:
+		cr.kind = "same"
+	}
+	return cr
+}
+
+// which request's sign bytes does sig verify against (public-key verification)
+func (r *real) verifiedAgainst(cr callResult) (string, []byte) {
+	if len(cr.sig) == 0 {
+		return "invalid", nil
+	}
+	var valid []byte
+	if r.e.pub.VerifySignature(cr.after, cr.sig) {
+		valid = cr.after
+	} else { // not a signature of the message handed back: try everything requested so far
+		for _, q := range r.reqs {
+			if r.e.pub.VerifySignature(q.sb, cr.sig) {
+				valid = q.sb
+				break
+			}
+		}
+	}
+	if valid == nil {
+		return "invalid", nil
+	}
+	for _, q := range r.reqs {
+		if bytes.Equal(q.sb, valid) {
+			return strconv.Itoa(q.idx), valid
+		}
+	}
+	return "none", valid
+}
+
+func (r *real) note(rq *request) {
+	sb := rq.signBytes(rq.ts)
+	if sb == nil {
+		return
+	}
+	r.reqs = append(r.reqs, reqRec{r.n, sb})
+	r.meta[string(sb)] = sbMeta{[3]int64{rq.h, int64(rq.r), int64(rq.step())}, string(rq.signBytes(0))}
+	// the same message with every timestamp already seen for this content is found through modTs
+}
+
+// apply one line on the real signer; rel != nil when a signature was released (or on inject)
+func (r *real) apply(ws []string) (out string, rel *release) {
+	defer func() { r.n++ }()
+	defer func() {
+		if x := recover(); x != nil {
+			out = fmt.Sprintf("harness-panic %v", x)
+		}
+	}()
+	switch ws[0] {
+	case "reload":
+		if len(ws) != 1 {
+			return "bad-op", nil
+		}
+		r.reload()
+		return "reloaded" + r.stateSuffix(), nil
+	case "inject":
+		return r.inject(ws[1:])
+	case "crashBeforeSave", "crashAfterSave":
+		rq, ok := parseRequest(ws[1:])
+		if !ok {
+			return "bad-op", nil
+		}
+		r.note(rq)
+		before, _ := os.ReadFile(r.statePath)
+		cr := r.call(rq)
+		phase := "after"
+		if ws[0] == "crashBeforeSave" {
+			phase = "before"
+			// the rename never happened: the old file is still there (plus a stray temp file)
+			_ = os.WriteFile(r.statePath, before, 0600)
+			_ = os.WriteFile(filepath.Join(filepath.Dir(r.statePath), "write-file-atomic-crashed"), []byte("{"), 0600)
+		}
+		r.reload()
+		return "crashed " + phase + " " + cr.kind + r.stateSuffix(), nil
+	default:
+		rq, ok := parseRequest(ws)
+		if !ok {
+			return "bad-op", nil
+		}
+		r.note(rq)
+		cr := r.call(rq)
+		if strings.HasPrefix(cr.kind, "err") || strings.HasPrefix(cr.kind, "panic") {
+			return cr.kind + r.stateSuffix(), nil
+		}
+		which, valid := r.verifiedAgainst(cr)
+		rel = &release{idx: r.n, sig: cr.sig, validFor: valid}
+		if valid != nil {
+			if m, ok := r.meta[string(valid)]; ok {
+				rel.hrs, rel.modTs = m.hrs, m.modTs
+			} else { // the message handed back (stored timestamp): same HRS/content as the request
+				rel.hrs = [3]int64{rq.h, int64(rq.r), int64(rq.step())}
+				rel.modTs = string(rq.signBytes(0))
+			}
+		}
+		h, rr, s, _, fsig, err := readStateFile(r.statePath)
+		rel.fileHRS, rel.fileSig = [3]int64{h, int64(rr), int64(s)}, fsig
+		if err != nil {
+			rel.fileErr = err.Error()
+		}
+		return "ok " + cr.kind + " sig=" + which + r.stateSuffix(), rel
+	}
+}
+
+// inject <h> <r> <s> <none|content:ts> <sig|nosig>: hand-made state file, written through the real
+// Save, then a real reload.
+func (r *real) inject(ws []string) (string, *release) {
+	if len(ws) != 5 {
+		return "bad-op", nil
+	}
+	h, e1 := strconv.ParseInt(ws[0], 10, 64)
+	rr, e2 := strconv.ParseInt(ws[1], 10, 32)
+	s, e3 := strconv.ParseInt(ws[2], 10, 8)
+	if e1 != nil || e2 != nil || e3 != nil {
+		return "bad-op", nil
+	}
+	var sb, sig []byte
+	if ws[3] != "none" {
+		parts := strings.Split(ws[3], ":")
+		if len(parts) != 2 || s < 1 || s > 3 {
+			return "bad-op", nil
+		}
+		c, e4 := strconv.ParseUint(parts[0], 10, 32)
+		ts, e5 := strconv.ParseUint(parts[1], 10, 40)
+		if e4 != nil || e5 != nil {
+			return "bad-op", nil
+		}
+		rq := &request{proposal: s == 1, h: h, r: int32(rr), c: c, ts: ts, vtype: map[int64]string{1: "", 2: "prevote", 3: "precommit"}[s]}
+		sb = rq.signBytes(ts)
+		r.reqs = append(r.reqs, reqRec{r.n, sb})
+		r.meta[string(sb)] = sbMeta{[3]int64{h, rr, s}, string(rq.signBytes(0))}
+	}
+	switch ws[4] {
+	case "nosig":
+	case "sig":
+		if sb == nil {
+			return "bad-op", nil
+		}
+		var err error
+		if sig, err = r.e.priv.Sign(sb); err != nil {
+			return "harness-error " + err.Error(), nil
+		}
+	default:
+		return "bad-op", nil
+	}
+	l := &r.pv.LastSignState
+	l.Height, l.Round, l.Step, l.SignBytes, l.Signature = h, int32(rr), int8(s), sb, sig
+	l.Save()
+	r.reload()
+	return "injected" + r.stateSuffix(), &release{injected: true}
+}
+
+// ---------------------------------------------------------------------------- monitor
+
+// double-sign detector, written from the property statement; it sees only what was released.
+type monitor struct {
+	signed map[[3]int64]map[string]string // HRS -> message-modulo-timestamp -> hex(signature)
+	max    *[3]int64
+	seen   map[string]bool
+}
+
+func newMonitor() *monitor {
+	return &monitor{signed: map[[3]int64]map[string]string{}, seen: map[string]bool{}}
+}
+
+func lessHRS(a, b [3]int64) bool {
+	for i := 0; i < 3; i++ {
+		if a[i] != b[i] {
+			return a[i] < b[i]
+		}
+	}
+	return false
+}
+
+// observe returns (kind, detail) of a violation or "".
+func (m *monitor) observe(rel *release) (string, string) {
+	if rel.injected {
+		*m = *newMonitor()
+		return "", ""
+	}
+	if rel.validFor == nil {
+		return "invalid-signature", fmt.Sprintf("line %d: a signature was returned that verifies against no requested message", rel.idx)
+	}
+	sigHex := hex.EncodeToString(rel.sig)
+	kind, detail := "", ""
+	set := m.signed[rel.hrs]
+	if set == nil {
+		set = map[string]string{}
+		m.signed[rel.hrs] = set
+	}
+	for other := range set {
+		if other != rel.modTs {
+			kind, detail = "double-sign", fmt.Sprintf("line %d: second signature at height/round/step %v for a different message (differs in more than the timestamp)", rel.idx, rel.hrs)
+		}
+	}
+	if old, ok := set[rel.modTs]; ok && old != sigHex && kind == "" {
+		kind, detail = "resign-not-original", fmt.Sprintf("line %d: the same message up to timestamp was signed twice at %v with different signatures", rel.idx, rel.hrs)
+	}
+	if m.max != nil && lessHRS(rel.hrs, *m.max) && kind == "" {
+		kind, detail = "regression", fmt.Sprintf("line %d: signature released for height/round/step %v after one for %v", rel.idx, rel.hrs, *m.max)
+	}
+	if kind == "" {
+		if rel.fileErr != "" {
+			kind, detail = "not-persisted", fmt.Sprintf("line %d: state file unreadable when the signature was released: %s", rel.idx, rel.fileErr)
+		} else if lessHRS(rel.fileHRS, rel.hrs) || (rel.fileHRS == rel.hrs && !bytes.Equal(rel.fileSig, rel.sig)) {
+			kind, detail = "not-persisted", fmt.Sprintf("line %d: signature for %v released while the state file holds %v (signature on file equal: %v)",
+				rel.idx, rel.hrs, rel.fileHRS, bytes.Equal(rel.fileSig, rel.sig))
+		}
+	}
+	if _, ok := set[rel.modTs]; !ok {
+		set[rel.modTs] = sigHex
+	}
+	if m.max == nil || lessHRS(*m.max, rel.hrs) {
+		x := rel.hrs
+		m.max = &x
+	}
+	m.seen[sigHex] = true
+	return kind, detail
+}
+
+// ---------------------------------------------------------------------------- generator
+
+type genState struct {
+	h    int64
+	r    int32
+	s    int8 // 1..3 of the last "frontier" request
+	c    uint64
+	ts   uint64
+	prop bool
+	any  bool
+}
+
+func (g *genState) line(h int64, r int32, s int8, c, ts uint64) string {
+	if s == 1 {
+		return fmt.Sprintf("proposal %d %d %d %d", h, r, c, ts)
+	}
+	t := "prevote"
+	if s == 3 {
+		t = "precommit"
+	}
+	return fmt.Sprintf("vote %d %d %s %d %d", h, r, t, c, ts)
+}
+
+func genRequest(r *rng.R, g *genState) string {
+	if !g.any {
+		g.any = true
+		g.h, g.r, g.s = int64(r.Range(0, 3)), int32(r.Range(0, 1)), int8(r.Range(1, 3))
+		if r.Chance(4) {
+			g.h = int64(1)<<62 - int64(r.Intn(2))
+		}
+		g.c, g.ts = uint64(r.Intn(6)), uint64(r.Range(0, 5000))
+		return g.line(g.h, g.r, g.s, g.c, g.ts)
+	}
+	newTs := func() uint64 { return g.ts + uint64(r.Range(1, 900)) }
+	otherC := func() uint64 { return (g.c + uint64(r.Range(1, 5))) % 6 }
+	switch r.Pick(34, 14, 16, 14, 14, 4, 4) {
+	case 0: // advance: next step / round / height
+		switch r.Pick(55, 22, 23) {
+		case 0:
+			if g.s < 3 {
+				g.s++
+			} else {
+				g.r, g.s = g.r+1, int8(r.Range(1, 2))
+			}
+		case 1:
+			g.r, g.s = g.r+int32(r.Range(1, 2)), int8(r.Range(1, 3))
+		case 2:
+			g.h, g.r, g.s = g.h+int64(r.Range(1, 2)), int32(r.Intn(2)), int8(r.Range(1, 3))
+		}
+		if r.Chance(60) {
+			g.c = uint64(r.Intn(6))
+		}
+		g.ts = newTs()
+		return g.line(g.h, g.r, g.s, g.c, g.ts)
+	case 1: // exact repeat
+		return g.line(g.h, g.r, g.s, g.c, g.ts)
+	case 2: // same content, other timestamp (earlier or later)
+		ts := newTs()
+		if r.Chance(30) && g.ts > 0 {
+			ts = uint64(r.Intn(int(g.ts)))
+		}
+		return g.line(g.h, g.r, g.s, g.c, ts)
+	case 3: // conflicting content at the same HRS
+		ts := g.ts
+		if r.Chance(50) {
+			ts = newTs()
+		}
+		return g.line(g.h, g.r, g.s, otherC(), ts)
+	case 4: // regression in step / round / height, same or other content
+		h, rr, s := g.h, g.r, g.s
+		switch r.Pick(40, 30, 30) {
+		case 0:
+			if s > 1 {
+				s = int8(r.Range(1, int(s)-1))
+			} else {
+				rr--
+			}
+		case 1:
+			rr -= int32(r.Range(1, 2))
+			s = int8(r.Range(1, 3))
+		case 2:
+			h -= int64(r.Range(1, 3))
+			rr, s = int32(r.Range(0, 3)), int8(r.Range(1, 3))
+		}
+		c := g.c
+		if r.Chance(50) {
+			c = otherC()
+		}
+		return g.line(h, rr, s, c, newTs())
+	case 5: // a vote whose type is neither prevote nor precommit
+		return fmt.Sprintf("vote %d %d unknown %d %d", g.h+int64(r.Range(0, 1)), g.r, g.c, newTs())
+	default: // far jump / extreme values
+		switch r.Intn(3) {
+		case 0:
+			g.h, g.r, g.s = g.h+int64(r.Range(10, 1000)), 0, int8(r.Range(1, 3))
+		case 1:
+			g.r, g.s = 2147483647-int32(r.Intn(2)), int8(r.Range(1, 3))
+		default:
+			return g.line(-int64(r.Range(1, 5)), int32(-r.Intn(2)), int8(r.Range(1, 3)), g.c, newTs())
+		}
+		g.c, g.ts = uint64(r.Intn(6)), newTs()
+		return g.line(g.h, g.r, g.s, g.c, g.ts)
+	}
+}
+
+func genHistory(r *rng.R, maxOps int, reloads bool) []string {
+	n := r.Range(4, maxOps)
+	g := &genState{}
+	var ops []string
+	if r.Chance(8) { // defensive CheckHRS branches from a hand-made state file (first line only)
+		h, rr, s := r.Range(0, 3), r.Range(0, 1), r.Range(0, 3)
+		sb, sg := "none", "nosig"
+		if s >= 1 && r.Chance(70) {
+			sb = fmt.Sprintf("%d:%d", r.Intn(6), r.Range(0, 5000))
+			if r.Chance(50) {
+				sg = "sig"
+			}
+		}
+		ops = append(ops, fmt.Sprintf("inject %d %d %d %s %s", h, rr, s, sb, sg))
+		if s >= 1 {
+			g.any, g.h, g.r, g.s, g.c, g.ts = true, int64(h), int32(rr), int8(s), uint64(r.Intn(6)), uint64(r.Range(0, 5000))
+			if sb != "none" && r.Chance(70) {
+				fmt.Sscanf(sb, "%d:%d", &g.c, &g.ts)
+			}
+		}
+	}
+	pReload, pCrash := 12, 12
+	if !reloads {
+		pReload, pCrash = 3, 3
+	}
+	for len(ops) < n {
+		x := r.Intn(100)
+		switch {
+		case x < pReload:
+			ops = append(ops, "reload")
+		case x < pReload+pCrash:
+			// the generator's frontier advances as if the request had been made: later lines then
+			// repeat / conflict with a request that died before or after its save
+			rq := genRequest(r, g)
+			if r.Bool() {
+				ops = append(ops, "crashBeforeSave "+rq)
+			} else {
+				ops = append(ops, "crashAfterSave "+rq)
+			}
+		default:
+			ops = append(ops, genRequest(r, g))
+		}
+	}
+	return ops
+}
+
+// ---------------------------------------------------------------------------- running
+
+type histResult struct {
+	outs []string
+	kind string // first monitor violation kind ("" none)
+	det  string
+	at   int
+}
+
+func runReal(e *env, idx int, ops []string) (hr histResult, err error) {
+	r, err := openReal(e, idx)
+	if err != nil {
+		return hr, err
+	}
+	defer r.close()
+	m := newMonitor()
+	hr.at = -1
+	for i, op := range ops {
+		out, rel := r.apply(strings.Fields(op))
+		hr.outs = append(hr.outs, out)
+		if rel != nil {
+			if k, d := m.observe(rel); k != "" && hr.kind == "" {
+				hr.kind, hr.det, hr.at = k, d, i
+			}
+		}
+		if strings.HasPrefix(out, "harness-panic") && hr.kind == "" {
+			hr.kind, hr.det, hr.at = "harness-panic", out, i
+		}
+	}
+	return hr, nil
+}
+
+func outcomeKey(op, out string) string {
+	o := strings.Fields(out)
+	k := strings.Fields(op)[0]
+	if k == "crashBeforeSave" || k == "crashAfterSave" {
+		k += "-" + strings.Fields(op)[1]
+	}
+	switch o[0] {
+	case "ok":
+		return k + "/ok-" + o[1]
+	case "err", "panic":
+		return k + "/" + o[0] + "-" + o[1]
+	case "crashed":
+		if o[2] == "err" || o[2] == "panic" {
+			return k + "/" + o[2] + "-" + o[3]
+		}
+		return k + "/" + o[2]
+	}
+	return k + "/" + o[0]
+}
+
+// Run is the stream entry point.
 func Run(seed uint64, tier, work, driver string, replay []string) *common.Result {
 	res := common.NewResult("signer", seed, tier)
-	res.Error = "stream not implemented"
+	res.Rule = "random vote/proposal signing requests (advancing, exact repeats, same content with another timestamp, " +
+		"conflicting content, step/round/height regressions, unknown vote type, extreme values) on the real crypto.SFilePV, " +
+		"with LoadSFilePV reloads and crashes before/after the state-file write between arbitrary requests; " +
+		"a case is (operation kind, outcome); a history is non-trivial when it contains a re-sent signature " +
+		"(same / ts-same) after a reload or crash and a refused request (conflict or regression); " +
+		"distinct_nontrivial counts distinct non-trivial histories"
+	r := rng.New(seed)
+	nh, maxOps, nPass := 2000, 40, 2
+	if tier == "thorough" {
+		nh, maxOps, nPass = 40000, 40, 40
+	}
+	plain, err := newEnv(work, "plain", nil)
+	if err != nil {
+		res.Error = err.Error()
+		return res
+	}
+	var hist [][]string
+	var envs []*env
+	if replay != nil {
+		hist, envs = [][]string{replay}, []*env{plain}
+	} else {
+		// a few histories with a passphrase-protected key file (each LoadSFilePV then costs a
+		// 600k-iteration PBKDF2), the bulk with the plaintext key file format
+		locked, err := newEnv(work, "locked", []byte("verif-passphrase"))
+		if err != nil {
+			res.Error = err.Error()
+			return res
+		}
+		for i := 0; i < nh; i++ {
+			if i < nPass {
+				hist = append(hist, genHistory(r.Fork(), 14, false))
+				envs = append(envs, locked)
+			} else {
+				hist = append(hist, genHistory(r.Fork(), maxOps, true))
+				envs = append(envs, plain)
+			}
+		}
+		res.Notes = append(res.Notes, fmt.Sprintf("%d histories ran with a passphrase-encrypted key file, the rest with the plaintext key file", nPass))
+	}
+	distinct := common.Distinct{}
+	var all []string
+	var realOuts [][]string
+	kindsSeen := map[string]bool{}
+	for i, ops := range hist {
+		hr, err := runReal(envs[i], i, ops)
+		if err != nil {
+			res.Error = err.Error()
+			return res
+		}
+		realOuts = append(realOuts, hr.outs)
+		all = append(all, "reset")
+		all = append(all, ops...)
+		res.Histories++
+		resent, refused, restarted := false, false, false
+		for j, op := range ops {
+			res.Evaluations++
+			res.Count(outcomeKey(op, hr.outs[j]))
+			k := strings.Fields(op)[0]
+			if k == "reload" || strings.HasPrefix(k, "crash") {
+				restarted = true
+			}
+			if restarted && (strings.HasPrefix(hr.outs[j], "ok same") || strings.HasPrefix(hr.outs[j], "ok ts-same")) {
+				resent = true
+			}
+			if strings.HasPrefix(hr.outs[j], "err conflict") || strings.Contains(hr.outs[j], "-regression") {
+				refused = true
+			}
+		}
+		if resent && refused {
+			distinct.Add(strings.Join(ops, ";"))
+		}
+		if hr.kind != "" && !kindsSeen[hr.kind] {
+			kindsSeen[hr.kind] = true
+			kind := hr.kind
+			fails := func(c []string) bool {
+				x, err := runReal(envs[i], 1<<30, c)
+				return err == nil && x.kind == kind
+			}
+			small := common.Shrink(ops[:hr.at+1], fails, 300)
+			res.Violations = append(res.Violations, common.Violation{Property: "C20", Kind: hr.kind,
+				Detail: fmt.Sprintf("history %d: %s", i, hr.det), Ops: small})
+		}
+		if i >= 2 && i < 5 && replay == nil || replay != nil {
+			res.Samples = append(res.Samples, strings.Join(ops, "; ")+"  =>  "+strings.Join(hr.outs, "; "))
+		}
+	}
+	res.DistinctNontrivial = len(distinct)
+
+	// the Lean model on the same lines
+	modelOut, err := common.RunDriver(driver, "signer", all)
+	if err != nil {
+		res.Error = err.Error()
+		return res
+	}
+	if len(modelOut) != len(all) {
+		res.Error = fmt.Sprintf("model printed %d lines for %d operations", len(modelOut), len(all))
+		return res
+	}
+	pos := 0
+	for i, ops := range hist {
+		pos++ // "reset"
+		for j, op := range ops {
+			mo := modelOut[pos+j]
+			if mo != realOuts[i][j] {
+				e := envs[i]
+				fails := func(c []string) bool {
+					x, err := runReal(e, 1<<30, c)
+					if err != nil {
+						return false
+					}
+					mo, err := common.RunDriver(driver, "signer", c)
+					if err != nil || len(mo) != len(x.outs) {
+						return false
+					}
+					for k := range mo {
+						if mo[k] != x.outs[k] {
+							return true
+						}
+					}
+					return false
+				}
+				small := common.Shrink(ops[:j+1], fails, 200)
+				res.Disagreements = append(res.Disagreements, common.Disagreement{History: i, Index: j, Op: op,
+					Impl: realOuts[i][j], Model: mo, Ops: small})
+				break
+			}
+		}
+		pos += len(ops)
+		if len(res.Disagreements) >= 5 {
+			break
+		}
+	}
 	return res
 }
